@@ -63,16 +63,17 @@ COEFS = ["0.5", "1.5", "2.0", "1.25", "3.0", "2", "3"]
 # --------------------------------------------------------------------------
 # abstract case -> members / expressions
 # --------------------------------------------------------------------------
-def scalar_members(cat, n):
-    """Expression nodes of one category usable in any duration."""
+def scalar_members(cat, n, ev=False):
+    """Expression nodes of one category usable in any duration (ev: the model is compiled with
+    expand_vectors, where an input array may be fixed element by element)."""
     if cat == "constant":
         return [["var", "c0"], ["var", "c1"]]
     if cat == "parameter":
         return [["var", "p0"], ["var", "p1"]] + [["idx", "pa", k] for k in range(1, n + 1)]
     if cat == "fixed_input":
-        return [["var", "uf"]]
+        return [["var", "uf"]] + [["idx", "uaf", k] for k in range(1, n + 1)] + ([["idx", "um", 1, 1], ["idx", "um", 2, 2]] if ev else [])
     if cat == "nonfixed_input":
-        return [["var", "un"]]
+        return [["var", "un"]] + [["idx", "uan", k] for k in range(1, n + 1)] + ([["idx", "um", 1, 2], ["idx", "um", 2, 1]] if ev else [])
     if cat == "time":
         return [["time"]]
     if cat == "state":
@@ -139,9 +140,15 @@ def build_model(case):
         v("pa", prefix="parameter", dims=[n], value=["arrlit", [["real", "%d.5" % k] for k in range(n)]]),
         v("uf", prefix="input", attrs={"fixed": ["bool", True]}),
         v("un", prefix="input"),
+        v("uaf", prefix="input", dims=[n], attrs={"each fixed": ["bool", True]}),
+        v("uan", prefix="input", dims=[n]),
         v("x0"), v("x1"), v("a0"), v("a1"),
         v("xs", dims=[n]), v("xa", dims=[n]),
     ]
+    if case["opts"].get("expand_vectors"):
+        # fixed element by element (well defined once every element is a variable of its own)
+        vars_.append(v("um", prefix="input", dims=[2, 2], attrs={"fixed": ["arrlit", [
+            ["arrlit", [["bool", True], ["bool", False]]], ["arrlit", [["bool", False], ["bool", True]]]]]}))
     eqs = [
         ["eq", ["der", ["var", "x0"]], ["bin", "+", ["var", "a0"], ["var", "un"]]],
         ["eq", ["der", ["var", "x1"]], ["bin", "*", ["var", "x0"], ["var", "uf"]]],
@@ -202,7 +209,12 @@ def make_point(case, rs):
     for name in ("c0", "c1", "p0", "p1", "uf", "un", "x0", "x1", "a0", "a1"):
         env[name] = float(rs.uniform(0.5, 3.0))
         der[name] = float(rs.uniform(0.5, 3.0))
-    names = ["pa", "xs", "xa"]
+    names = ["pa", "xs", "xa", "uaf", "uan"]
+    if case["opts"].get("expand_vectors"):
+        env["um"] = rs.uniform(0.5, 3.0, size=(2, 2))
+        der["um"] = rs.uniform(0.5, 3.0, size=(2, 2))
+        for idx in np.ndindex(2, 2):
+            env["um[%d,%d]" % (idx[0] + 1, idx[1] + 1)] = float(env["um"][idx])
     for k, d in enumerate(case["delays"]):
         names.append(("z%d" if d["loop"] else "y%d") % k)
         if d["loop"] and d["sibling"]:
@@ -479,15 +491,15 @@ def loop_expr(draw, n, lo, hi, allow_free):
 
 
 @st.composite
-def member(draw, cat, n, in_loop, allow_indexed):
-    pool = scalar_members(cat, n)
+def member(draw, cat, n, in_loop, allow_indexed, ev=False):
+    pool = scalar_members(cat, n, ev)
     if in_loop and allow_indexed and indexed_members(cat) and draw(st.booleans()):
         pool = indexed_members(cat)
     return [cat, draw(st.sampled_from(pool))]
 
 
 @st.composite
-def duration(draw, n, in_loop, forced, allow_indexed):
+def duration(draw, n, in_loop, forced, allow_indexed, ev=False):
     """forced: None (allowed members only) or a disallowed category that must occur."""
     n_members = draw(st.integers(1, 3))
     allowed = ["constant", "parameter", "fixed_input"]
@@ -508,7 +520,7 @@ def duration(draw, n, in_loop, forced, allow_indexed):
         if c == "loop_index":
             members.append([c, I])
         else:
-            members.append(draw(member(c, n, in_loop, allow_indexed)))
+            members.append(draw(member(c, n, in_loop, allow_indexed, ev)))
     # split the members into terms: each term = coef * product of 1-2 members
     terms = []
     i = 0
@@ -557,7 +569,7 @@ def case_strategy(draw, ctx=None):
             d["expr"] = draw(st.sampled_from([["bin", "*", coef, a], ["bin", "+", a, b], ["bin", "-", ["bin", "*", coef, a], b]]))
         else:
             d["expr"] = draw(scalar_expr(n))
-        d["dur"] = draw(duration(n, loop, forced, not known_idx))
+        d["dur"] = draw(duration(n, loop, forced, not known_idx, opts["expand_vectors"]))
         delays.append(d)
     return {"n": n, "opts": opts, "delays": delays, "seed": draw(st.integers(0, 2**31 - 1)), "cache": draw(st.integers(0, 3)) == 0}
 
